@@ -21,8 +21,8 @@ type widSpec struct {
 	Arg  int
 }
 
-var widths = []widSpec{{"", false, 0}, {"0", false, 0}, {"1", false, 0}, {"7", false, 0}, {"12", false, 0}, {"1000", false, 0}, {"*", true, 9}, {"*", true, -6}, {"70", false, 0}}
-var precs = []widSpec{{"", false, 0}, {".", false, 0}, {".0", false, 0}, {".1", false, 0}, {".5", false, 0}, {".*", true, 2}}
+var widths = []widSpec{{"", false, 0}, {"0", false, 0}, {"1", false, 0}, {"7", false, 0}, {"12", false, 0}, {"1000", false, 0}, {"*", true, 9}, {"*", true, -6}, {"70", false, 0}, {"263", false, 0}, {"65543", false, 0}, {"*", true, 65545}}
+var precs = []widSpec{{"", false, 0}, {".", false, 0}, {".0", false, 0}, {".1", false, 0}, {".5", false, 0}, {".*", true, 2}, {".257", false, 0}, {".65537", false, 0}}
 
 var letterVerbs = func() []rune {
 	var r []rune
@@ -113,8 +113,10 @@ func seq(n int) []int {
 	return r
 }
 
+// fullDirectives: everything except the very wide widths/precisions (indexes 9.. / 6..), which only C14's state
+// round-trip uses (they exist to expose truncation of width/precision to 8 or 16 bits; printing them is expensive).
 func fullDirectives() DirectiveSpace {
-	return DirectiveSpace{FlagSets: seq(32), Wids: seq(len(widths)), Precs: seq(len(precs)), Verbs: append(append([]rune{}, letterVerbs...), oddVerbs...)}
+	return DirectiveSpace{FlagSets: seq(32), Wids: seq(9), Precs: seq(6), Verbs: append(append([]rune{}, letterVerbs...), oddVerbs...)}
 }
 
 // quickDirectives: all 32 flag subsets x {none,7,*=-6} x {none,.1,.*} x 30 verbs.
@@ -176,4 +178,11 @@ func indexedFormats(quick bool) []string {
 		}
 	}
 	return out
+}
+
+// wideDirectives: the full space plus widths/precisions congruent to smaller ones modulo 2^8 and 2^16.
+func wideDirectives() DirectiveSpace {
+	d := fullDirectives()
+	d.Wids, d.Precs = seq(len(widths)), seq(len(precs))
+	return d
 }
